@@ -23,6 +23,8 @@ type Packet struct {
 	CD    bool
 	ID    uint16
 	Kind  string // what the honest server made of it
+	Cut   string // referral: the delegation point
+	Ghost bool   // answered by a server of a superseded world
 	Opts  []uint16
 }
 
@@ -42,6 +44,8 @@ type Net struct {
 	// Script, when set, sees every query with the honest response and may edit it in place and/or
 	// return an Action. n counts queries to this (addr, proto) from 0.
 	Script func(p Packet, n int, req, resp *dns.Msg, info Info) Action
+	// Ghost maps addresses to a superseded world they keep serving (servers the parent no longer delegates to).
+	Ghost map[string]*World
 	// Refuse makes Dial fail for these "proto/addr" keys (connection refused).
 	Refuse map[string]bool
 
@@ -58,6 +62,19 @@ func (n *Net) Log() []Packet {
 	n.mu.Lock()
 	defer n.mu.Unlock()
 	return append([]Packet(nil), n.log...)
+}
+
+// Swap replaces the live world; ghosts keep serving old.
+func (n *Net) Swap(w *World, ghosts map[string]*World) {
+	n.mu.Lock()
+	n.W = w
+	if n.Ghost == nil {
+		n.Ghost = map[string]*World{}
+	}
+	for a, g := range ghosts {
+		n.Ghost[a] = g
+	}
+	n.mu.Unlock()
 }
 
 // Dials returns every "proto/host" sdns tried to connect to.
@@ -99,7 +116,11 @@ func (n *Net) Dial(ctx context.Context, proto, addr string) (net.Conn, error) {
 	if strings.HasPrefix(proto, "udp") {
 		return &memPacketConn{c}, nil
 	}
-	if _, ok := n.W.Addrs[host]; !ok {
+	n.mu.Lock()
+	_, live := n.W.Addrs[host]
+	_, ghost := n.Ghost[host]
+	n.mu.Unlock()
+	if !live && !ghost {
 		// nobody listens: a TCP connect to a dead address times out; model it as refused
 		return nil, refusedErr{}
 	}
@@ -261,10 +282,16 @@ func (n *Net) handle(c *memConn, raw []byte) {
 	}
 	var resp *dns.Msg
 	var info Info
-	if _, ok := n.W.Addrs[c.host]; ok {
-		resp, info = n.W.Serve(c.host, req)
+	n.mu.Lock()
+	cur, ghost := n.W, n.Ghost[c.host]
+	n.mu.Unlock()
+	if ghost != nil {
+		resp, info = ghost.Serve(c.host, req)
+		p.Ghost = true
+	} else if _, ok := cur.Addrs[c.host]; ok {
+		resp, info = cur.Serve(c.host, req)
 	}
-	p.Kind = info.Kind
+	p.Kind, p.Cut = info.Kind, info.Out.Cut
 	n.mu.Lock()
 	if n.seen == nil {
 		n.seen = map[string]int{}
